@@ -608,6 +608,140 @@ def test_always_comb_not_sensitive_to_what_it_writes():
     assert s.stats['activations'] <= 2
 
 
+# ---- sensitivity at bit granularity, net-change wake-up (IEEE 1800-2017 9.2.2.2.1) ----
+
+def test_false_loop_through_disjoint_slices_file_settles():
+    """Several always_comb blocks write disjoint part-selects of one packed
+    variable and read other part-selects of it, each with "default, then
+    conditional overwrite" (a glitch on every execution).  Bit-level acyclic:
+    must settle."""
+    with open(os.path.join(HERE, 'data', 'false_loop_slices.v')) as fd:
+        d = elaborate(parse(fd.read()))
+    assert d.static_issues() == []
+    finals = set()
+    for seed in (0, 1, 2):
+        sim = d.new_sim(order_seed=seed)
+        sim.set('reset', 1)
+        sim.eval()
+        rng = random.Random(11)
+        trace = []
+        for cyc in range(20):
+            for p in d.ports:
+                if p.direction == 'input' and p.name != 'clk':
+                    sim.set(p.name, _random_value(rng, p) if (p.name != 'reset' or cyc) else 1)
+            sim.eval()
+            sim.tick()
+            trace.append(tuple(repr(sim.get(p.name)) for p in d.ports))
+        finals.add(tuple(trace))
+    assert len(finals) == 1              # and the result does not depend on the process order
+
+
+SLICES_OK = """
+module t ( input logic [0:0] clk, input logic [0:0] a, input logic [0:0] b, input logic [3:0] c,
+           input logic [3:0] i, output logic [7:0] x, output logic [7:0] y );
+  always_comb begin : p1
+    x[3:0] = 4'd0;
+    if ( a ) x[3:0] = y[7:4];
+  end
+  always_comb begin : p2
+    y[7:4] = 4'd0;
+    if ( b ) y[7:4] = c;
+    y[3:0] = x[7:4];
+  end
+  always_comb begin : p3
+    x[7:4] = i;
+  end
+endmodule
+"""
+
+
+def test_disjoint_slices_of_one_variable_settle_for_every_order():
+    d = elaborate(parse(SLICES_OK))
+    assert d.static_issues() == []
+    for seed in range(12):
+        sim = d.new_sim(order_seed=seed)
+        rng = random.Random(seed)
+        for _ in range(30):
+            a, b, c, i = rng.getrandbits(1), rng.getrandbits(1), rng.getrandbits(4), rng.getrandbits(4)
+            for k, v in dict(a=a, b=b, c=c, i=i).items():
+                sim.set(k, v)
+            sim.eval()
+            yh = c if b else 0
+            assert sim.get('y') == (yh << 4) | i
+            assert sim.get('x') == (i << 4) | (yh if a else 0)
+        # the glitching default assignments wake nobody: few activations per input change
+        assert sim.stats['activations'] < 30 * 8
+
+
+def test_glitch_restored_within_one_execution_wakes_nobody():
+    t = """module t ( input logic [0:0] clk, input logic [3:0] a, output logic [3:0] w, output logic [3:0] z );
+      always_comb begin : wr
+        w = 4'd9;
+        w = a;
+      end
+      always_comb begin : rd
+        z = w + 4'd1;
+      end
+    endmodule"""
+    sim = elaborate(parse(t)).new_sim()
+    sim.set('a', 3)
+    sim.eval()
+    n = sim.stats['activations']
+    sim.set('a', 3)                      # no change
+    sim.eval()
+    assert sim.stats['activations'] == n
+    sim.set('a', 4)
+    sim.eval()
+    assert sim.stats['activations'] == n + 2      # wr once, rd once
+    assert sim.get('z') == 5
+
+
+def test_process_is_sensitive_to_bits_of_a_variable_it_does_not_write():
+    # p writes x[3:0] and reads x[7:4]: it IS sensitive to x[7:4]
+    t = """module t ( input logic [0:0] clk, input logic [3:0] i, output logic [7:0] x );
+      always_comb begin : lo
+        x[3:0] = ~x[7:4];
+      end
+      always_comb begin : hi
+        x[7:4] = i;
+      end
+    endmodule"""
+    d = elaborate(parse(t))
+    assert d.static_issues() == []
+    for seed in range(6):
+        sim = d.new_sim(seed)
+        for v in (5, 0, 15, 9):
+            sim.set('i', v)
+            sim.eval()
+            assert sim.get('x') == (v << 4) | (~v & 15)
+
+
+REAL_LOOP = """
+module t ( input logic [0:0] clk, input logic [0:0] en, output logic [4:0] x, output logic [2:0] y );
+  always_comb begin : px
+    x[4:1] = 4'd0;
+    if ( en ) x[4:1] = { 4 { ~y[2] } };
+  end
+  always_comb begin : py
+    y[2:0] = { 3 { x[3] } };
+  end
+  assign x[0] = en;
+endmodule
+"""
+
+
+def test_real_loop_through_overlapping_slices_still_raises():
+    d = elaborate(parse(REAL_LOOP))
+    assert d.static_issues() == []
+    for seed in range(4):
+        sim = d.new_sim(seed)
+        sim.eval()                       # en = 0: stable
+        assert (sim.get('x'), sim.get('y')) == (0, 0)
+        sim.set('en', 1)
+        with pytest.raises(SvCombLoop):
+            sim.eval()
+
+
 # ---------------------------------------------------------------------------
 # 5. the translated files left in /repo by the pymtl3 test-suite
 # ---------------------------------------------------------------------------
